@@ -22,10 +22,15 @@ from zorg.storage.file import FileManager
 from zorg.storage.sql import SQLSession
 
 _LOGGER: Final = Logger(__name__)
-# Property values that can be written as 'key::value': one plain word, a
-# YYYY-MM-DD date or a ZID.
+# Property values that can be written as 'key::value': one plain word, or
+# what the grammar reads as ONE date / ZID token (DATE: 2NNN-MN-DN with M in
+# 0-1 and D in 0-3; ZID: a short date, '#' and 2-3 characters other than
+# I, O, j and l). Anything else, e.g. 1999-12-31 or 240305#0I, would be cut
+# short after its first token and must be written as an inline property.
 _SIMPLE_PROP_VALUE: Final = re.compile(
-    r"[A-Za-z0-9_]+|[0-9]{4}-[0-9]{2}-[0-9]{2}|[0-9]{6}#[0-9A-Za-z]{2,3}"
+    r"[A-Za-z0-9_]+"
+    r"|2[0-9]{3}-[01][0-9]-[0-3][0-9]"
+    r"|[0-9]{2}[01][0-9][0-3][0-9]#[0-9A-HJ-NP-Za-ikm-z]{2,3}"
 )
 _NOTE_PAGE_TMPL: Final = """# {headline}
 #
